@@ -3,7 +3,7 @@ C10 — tie theorems: the scalar kernels of `NudgingShiftSegment` as regenerated
 cola/libavoid/orthogonal.cpp by cpp2lean on every run (Gen/NudgeK.lean, job `nudgek`) are the hand
 models of Model/NudgeRegion.lean that the region model and the theorems of Props/C10Region.lean use.
 
-`toK o dim s` builds the object the generated code reads (Model/NudgeKeys.SegK: a two-point display
+`toK o dim s` (Lemmas/NudgeBridge.lean) builds the object the generated code reads (Model/NudgeKeys.SegK: a two-point display
 route, index list {0, 1}, the router options as fields) from a model segment `s`, for nudging
 dimension `dim` ∈ {0, 1}. Generated kernels compute in exact rationals; the model's rounding `rnd`
 only occurs in `createVar` (zigzag centre) and the bridge for it is stated for `rnd = id`.
@@ -11,24 +11,10 @@ Not regenerated (translator limits; hand models tied through the hook dump only)
 `CmpLineOrder::operator()` (map lookups, optional out-pointer), `updatePositionsFromSolver`, the body of
 `nudgeOrthogonalRoutes` itself.
 -/
-import AdaptaVerif.Gen.NudgeK
-import AdaptaVerif.Model.NudgeRegion
+import AdaptaVerif.Lemmas.NudgeBridge
 namespace AdaptaVerif.Props.C10Tie
 open AdaptaVerif.Model.Nudge AdaptaVerif.Model.NudgeRegion AdaptaVerif.Model.NudgeKeys
-open AdaptaVerif.Gen
-
-/-- a point with coordinate `p` in dimension `dim` and `a` in the other dimension -/
-def ptOf (dim : Nat) (p a : Rat) : PtL := if dim = 0 then [p, a] else [a, p]
-
-/-- the C++ object for model segment `s` in nudging dimension `dim` -/
-def toK (o : ROpts) (dim : Nat) (s : RSeg) : SegK :=
-  { ps := [ptOf dim s.pos s.lo, ptOf dim s.pos s.hi], lowIdx := 0, highIdx := 1, conn := s.conn,
-    nudgeDist := o.base, fsp := o.fsp, nudgeColinear := o.nudgeColinear, nudgeFinal := o.nudgeFinal,
-    dimension := dim, minSpaceLimit := s.minLim, maxSpaceLimit := s.maxLim, fixed := s.fixed,
-    finalSegment := s.finalSeg, endsInShape := s.endsInShape, singleConnectedSegment := s.single,
-    sBend := s.sBend, zBend := s.zBend, checkpoints := s.cps.map (fun c => ptOf dim c.1 c.2), var_ := none }
-
-theorem dim_cases {dim : Nat} (h : dim < 2) : dim = 0 ∨ dim = 1 := by omega
+open AdaptaVerif.Gen AdaptaVerif.Lemmas.NudgeBridge
 
 /-- constants read from orthogonal.cpp / scanline.h on every run = the model's constants -/
 theorem gen_constants_are_model :
@@ -64,11 +50,6 @@ theorem gen_overlapsWith_no_assertion (o : ROpts) (dim : Nat) (hd : dim < 2) (a 
   rcases dim_cases hd with rfl | rfl <;>
     simp only [NudgeK.overlapsWith_pre, NudgeK.lowPoint, NudgeK.highPoint, NudgeK.lowPoint_pre, NudgeK.highPoint_pre, toK, ptOf, earlyExitPre] <;>
     simp <;> (repeat' split) <;> simp_all
-
-theorem hasCps_toK (o : ROpts) (dim : Nat) (s : RSeg) :
-    decide ((toK o dim s).checkpoints.length > 0) = s.hasCps := by
-  simp only [toK, List.length_map, RSeg.hasCps]
-  cases s.cps <;> simp
 
 /-- `canAlignWith` -/
 theorem gen_canAlignWith_is_model (o : ROpts) (dim : Nat) (a b : RSeg) :
@@ -134,31 +115,6 @@ theorem gen_createSolverVariable_is_model (o : ROpts) (hr : ∀ r, o.rnd r = r) 
       by_cases h1 : (o.nudgeFinal && s.finalSeg) = true <;> by_cases h2 : s.hasCps = true <;> by_cases h3 : s.zigzag = true <;>
       by_cases h4 : s.fixed = true <;> by_cases h5 : s.finalSeg = true <;>
       simp_all [channelMax] <;> (try rfl)
-
-/-- the early-return loop of `hasCheckpointAtPosition` scans the checkpoints from index `cp` -/
-theorem hasCp_loop (position : Rat) (d : Nat) (self : SegK) (bound : Nat) : ∀ (fuel cp : Nat),
-    cp + fuel = self.checkpoints.length →
-    (NudgeK.hasCheckpointAtPosition_loop1 position d self bound fuel cp).1 =
-      if (self.checkpoints.drop cp).any (fun c => decide (c.getD d default = position)) then some true else none := by
-  intro fuel
-  induction fuel with
-  | zero =>
-    intro cp h
-    have : self.checkpoints.drop cp = [] := List.drop_eq_nil_of_le (by omega)
-    simp [NudgeK.hasCheckpointAtPosition_loop1, this]
-  | succ n ih =>
-    intro cp h
-    have hlt : cp < self.checkpoints.length := by omega
-    have hd : self.checkpoints.drop cp = self.checkpoints[cp] :: self.checkpoints.drop (cp + 1) :=
-      List.drop_eq_getElem_cons hlt
-    have hg : self.checkpoints.getD cp default = self.checkpoints[cp] := by
-      simp [List.getD, List.getElem?_eq_getElem hlt]
-    unfold NudgeK.hasCheckpointAtPosition_loop1
-    rw [hd, List.any_cons, hg]
-    by_cases hc : self.checkpoints[cp].getD d default = position
-    · simp only [hc, decide_true, if_true, Bool.true_or]
-    · simp only [hc, decide_false, Bool.false_eq_true, if_false, Bool.false_or]
-      exact ih (cp + 1) (by omega)
 
 /-- `hasCheckpointAtPosition(position, altDim)` -/
 theorem gen_hasCheckpointAtPosition_is_model (o : ROpts) (dim : Nat) (hd : dim < 2) (s : RSeg) (position : Rat) :
